@@ -185,3 +185,159 @@ def prove_equal(a, b, nonzero):
         if not nonzero(atom):
             return False
     return True
+
+
+# ---------------------------------------------------------------------------------------------------------------------
+# polynomial normal form (with distribution): a term is a sum of monomials  coef * prod atom^e  (e may be negative for atoms
+# that occur as divisors).  Divisors must be single monomials after normalisation (otherwise the divisor as a whole becomes
+# an atom with exponent -1).  Atoms are normalised recursively.  Same side conditions as above: every divisor atom non-zero.
+class PolyNormaliser(Normaliser):
+    MAX_TERMS = 20000
+
+    def poly(self, t):
+        """{monomial key: (coef, {atomkey: (atom, exp)})}"""
+        n = _num(t)
+        if n is not None:
+            return {(): (n, {})} if n != 0 else {}
+        k = t.decl().kind() if z3.is_app(t) else None
+        if k == z3.Z3_OP_ADD:
+            out = {}
+            for c in t.children():
+                self._padd(out, self.poly(c), 1)
+            return out
+        if k == z3.Z3_OP_SUB:
+            ch = t.children()
+            out = dict(self.poly(ch[0]))
+            for c in ch[1:]:
+                self._padd(out, self.poly(c), -1)
+            return out
+        if k == z3.Z3_OP_UMINUS:
+            out = {}
+            self._padd(out, self.poly(t.arg(0)), -1)
+            return out
+        if k == z3.Z3_OP_MUL:
+            out = {(): (Fraction(1), {})}
+            for c in t.children():
+                out = self._pmul(out, self.poly(c))
+            return out
+        if k == z3.Z3_OP_DIV:
+            a, b = self.poly(t.arg(0)), self.poly(t.arg(1))
+            if not b:
+                raise GiveUp("division by 0")
+            if len(b) == 1:
+                (coef, fs), = b.values()
+                for key, (atom, e) in fs.items():
+                    if e > 0:
+                        self.divisor_atoms[key] = atom
+                inv = {self._mkey({kk: (aa, -ee) for kk, (aa, ee) in fs.items()}): (1 / coef, {kk: (aa, -ee) for kk, (aa, ee) in fs.items()})}
+                return self._pmul(a, inv)
+            d = self.from_poly(b)
+            self.divisor_atoms[_key(d)] = d
+            return self._pmul(a, {self._mkey({_key(d): (d, -1)}): (Fraction(1), {_key(d): (d, -1)})})
+        if k == z3.Z3_OP_TO_REAL and z3.is_app(t.arg(0)) and t.arg(0).decl().kind() in (z3.Z3_OP_MUL, z3.Z3_OP_ADD, z3.Z3_OP_SUB, z3.Z3_OP_UMINUS):
+            # ToReal distributes over integer ring operations
+            inner = t.arg(0)
+            ik = inner.decl().kind()
+            kids = [z3.ToReal(c) for c in inner.children()]
+            if ik == z3.Z3_OP_MUL:
+                out = {(): (Fraction(1), {})}
+                for c in kids:
+                    out = self._pmul(out, self.poly(c))
+                return out
+            if ik == z3.Z3_OP_ADD:
+                out = {}
+                for c in kids:
+                    self._padd(out, self.poly(c), 1)
+                return out
+            if ik == z3.Z3_OP_SUB:
+                out = dict(self.poly(kids[0]))
+                for c in kids[1:]:
+                    self._padd(out, self.poly(c), -1)
+                return out
+            out = {}
+            self._padd(out, self.poly(kids[0]), -1)
+            return out
+        if k == z3.Z3_OP_TO_REAL:
+            n = _num(t.arg(0))
+            if n is not None:
+                return {(): (n, {})} if n != 0 else {}
+        if k == z3.Z3_OP_ITE:
+            c = z3.simplify(t.arg(0))
+            if z3.is_true(c):
+                return self.poly(t.arg(1))
+            if z3.is_false(c):
+                return self.poly(t.arg(2))
+        a = self.patom(t)
+        n = _num(a)
+        if n is not None:
+            return {(): (n, {})} if n != 0 else {}
+        fs = {_key(a): (a, 1)}
+        return {self._mkey(fs): (Fraction(1), fs)}
+
+    def patom(self, t):
+        k = t.decl().kind() if z3.is_app(t) else None
+        if z3.is_app(t) and t.num_args() > 0:
+            if k == z3.Z3_OP_ITE:
+                c = z3.simplify(t.arg(0))
+                if z3.is_true(c):
+                    return self.from_poly(self.poly(t.arg(1)))
+                if z3.is_false(c):
+                    return self.from_poly(self.poly(t.arg(2)))
+            kids = []
+            for c in t.children():
+                kids.append(self.from_poly(self.poly(c)) if c.sort() == z3.RealSort() else c)
+            return t.decl()(*kids)
+        return t
+
+    @staticmethod
+    def _mkey(fs):
+        return tuple(sorted((k, e) for k, (_, e) in fs.items()))
+
+    def _padd(self, out, other, sign):
+        for key, (coef, fs) in other.items():
+            cur = out.get(key)
+            c = (cur[0] if cur else 0) + sign * coef
+            if c == 0:
+                out.pop(key, None)
+            else:
+                out[key] = (c, fs)
+
+    def _pmul(self, a, b):
+        out = {}
+        if len(a) * len(b) > self.MAX_TERMS:
+            raise GiveUp("polynomial too large")
+        for _, (ca, fa) in a.items():
+            for _, (cb, fb) in b.items():
+                fs = dict(fa)
+                self._merge(fs, fb, 1)
+                key = self._mkey(fs)
+                cur = out.get(key)
+                c = (cur[0] if cur else 0) + ca * cb
+                if c == 0:
+                    out.pop(key, None)
+                else:
+                    out[key] = (c, fs)
+        return out
+
+    def from_poly(self, p):
+        if not p:
+            return z3.RealVal(0)
+        parts = []
+        for key in sorted(p, key=repr):
+            coef, fs = p[key]
+            parts.append(self.build(coef, fs))
+        return parts[0] if len(parts) == 1 else z3.Sum(parts)
+
+
+def poly_equal(a, b, nonzero):
+    """a == b as polynomials in their atoms (distribution allowed), divisor atoms proved non-zero by `nonzero`"""
+    try:
+        nz = PolyNormaliser()
+        d = {}
+        nz._padd(d, nz.poly(a), 1)
+        nz._padd(d, nz.poly(b), -1)
+    except GiveUp:
+        return False
+    if d:
+        return False
+    return all(nonzero(atom) for atom in nz.divisor_atoms.values())
